@@ -4,6 +4,8 @@
     phasegen/locus.py      LocusConfig.__init__ (ordered guards -> verdict; stored attributes), _get_initial_states, __eq__
     phasegen/lineage.py    LineageConfig.__init__ (the three container forms), _get_initial_states, __eq__ (through lineage_dict)
     phasegen/state_space.py  StateSpace.alpha (product of the two indicator vectors, normalised)
+    phasegen/distributions.py AbstractCoalescent.__init__ (the part that completes the sample configuration and the demography with each
+                             other's populations; compared with the expected text)
     phasegen/demography.py   Epoch.__init__ (copies, sorted names, zero-filled migration rates), Epoch.__eq__ / __hash__ (the key
                              equality of the state-space cache), Epoch.tau
 
@@ -393,6 +395,35 @@ def epoch_class(tree):
                '             (ev_mig a) (ev_mig b).\n')
     return out
 
+
+# ---------------------------------------------------------------------------------------------- AbstractCoalescent.__init__ (completion)
+def completion(tree):
+    cls = get_class(tree, 'AbstractCoalescent')
+    f = get_method(cls, '__init__')
+    got = [ast.unparse(s) for s in body_of(f)]
+    want = ['initial_sizes = {p: {0: 1} for p in self.lineage_config.pop_names if p not in demography.pop_names}',
+            'if len(initial_sizes) > 0:\n    demography.add_event(PopSizeChanges(initial_sizes))',
+            'unspecified_lineages = set(demography.pop_names) - set(self.lineage_config.pop_names)',
+            'self.lineage_config = LineageConfig(self.lineage_config.lineage_dict | {p: 0 for p in unspecified_lineages})']
+    idx = [i for i, x in enumerate(got) if x == want[0]]
+    if len(idx) != 1 or got[idx[0]:idx[0] + 4] != want:
+        raise Unsupported('AbstractCoalescent.__init__: the completion of populations has an unexpected text:\n' + '\n'.join('  ' + repr(x) for x in got))
+    # the sample configuration must not be reassigned anywhere else after its construction
+    n_assign = sum(1 for n in ast.walk(f) if isinstance(n, (ast.Assign, ast.AnnAssign, ast.AugAssign))
+                   for t in (n.targets if isinstance(n, ast.Assign) else [n.target]) if chain(t) == 'self.lineage_config')
+    if n_assign != 3:
+        raise Unsupported(f'AbstractCoalescent.__init__: self.lineage_config is assigned {n_assign} times (expected: two constructor branches and the completion)')
+    return ['(* AbstractCoalescent.__init__, completion of populations (compared with the expected text): populations of the sample that the\n'
+            '   demography does not know get size 1 from time 0; populations of the demography that the sample does not name are appended to the\n'
+            '   sample configuration with 0 lineages - in the iteration order of a Python set, which is the parameter `set_order` (any\n'
+            '   rearrangement of the missing names) *)\n'
+            'Definition Coalescent_initial_sizes (sample_names demography_names : list string) : list (string * Q) :=\n'
+            '    map (fun p => (p, 1%Q)) (filter (fun p => negb (existsb (String.eqb p) demography_names)) sample_names).\n'
+            'Definition Coalescent_unspecified (sample_names demography_names : list string) : list string :=\n'
+            '    filter (fun p => negb (existsb (String.eqb p) sample_names)) demography_names.\n'
+            'Definition Coalescent_completed_lineages (lineage_dict : list (string * Z)) (set_order : list string) : list (string * Z) :=\n'
+            '    lineage_dict ++ map (fun p => (p, 0%Z)) set_order.\n']
+
 # ---------------------------------------------------------------------------------------------- StateSpace.alpha
 def alpha(tree):
     cls = get_class(tree, 'StateSpace')
@@ -435,7 +466,7 @@ def translate(src_dir_or_text):
     if not os.path.isdir(d):
         d = os.path.dirname(d)
     trees = {}
-    for fn in ('locus.py', 'lineage.py', 'state_space.py', 'demography.py'):
+    for fn in ('locus.py', 'lineage.py', 'state_space.py', 'demography.py', 'distributions.py'):
         trees[fn] = ast.parse(open(os.path.join(d, fn)).read())
     for fn, need in (('locus.py', {'np': 'numpy'}), ('lineage.py', {'np': 'numpy'})):
         imports = {}
@@ -446,9 +477,9 @@ def translate(src_dir_or_text):
         for k, v in need.items():
             if imports.get(k) != v:
                 raise Unsupported(f'{fn}: name {k} is not bound to module {v}')
-    out = locus_config(trees['locus.py']) + lineage_config(trees['lineage.py']) + alpha(trees['state_space.py']) + epoch_class(trees['demography.py'])
+    out = locus_config(trees['locus.py']) + lineage_config(trees['lineage.py']) + alpha(trees['state_space.py']) + epoch_class(trees['demography.py']) + completion(trees['distributions.py'])
     return HEADER + '\n'.join(out), ['LocusConfig.__init__', 'LocusConfig._get_initial_states', 'LocusConfig.__eq__', 'LineageConfig.__init__',
-                                     'LineageConfig._get_initial_states', 'LineageConfig.__eq__', 'StateSpace.alpha', 'Epoch.__init__', 'Epoch.__eq__', 'Epoch.__hash__']
+                                     'LineageConfig._get_initial_states', 'LineageConfig.__eq__', 'StateSpace.alpha', 'Epoch.__init__', 'Epoch.__eq__', 'Epoch.__hash__', 'AbstractCoalescent.__init__ (completion of populations)']
 
 
 def main():
